@@ -34,7 +34,9 @@ P = {
     # the cover generator's model has one node-port IP: same here, so that its crash points reach every write
     "driver": {"cmd": "syncer", "env": {"VERIF_NPIPS": "1"}},
     "n_random": (120, 2000),
-    "trace": {"module": "T_Syncer", "cfg": "T_Syncer.cfg", "heap": "4g", "timeout": 900},
+    # rerun_attempts: the syncer iterates Go maps (which service gets which id/slot varies between runs), so a rejected
+    # history is re-executed up to 6 times; a verdict still needs a re-execution that is rejected again
+    "trace": {"module": "T_Syncer", "cfg": "T_Syncer.cfg", "heap": "4g", "timeout": 900, "rerun_attempts": 6},
     "chunk": 30000,
     "signature": signature,
     "nontrivial": nontrivial,
